@@ -1,5 +1,72 @@
-(* C08 - placeholder until the proposal model lands: re-exports the distribution algebra used by it. *)
-From PV Require Import Base.Dist.
-Theorem C08_mass_of_uniform : forall (X : Type) (l : list X), l <> [] -> mass (uniform l) = 1.
-Proof. exact (@mass_uniform). Qed.
-Print Assumptions C08_mass_of_uniform.
+(* C08 - SMC proposals are normalised, faithfully sampled, complete and correctly weighted.
+   "X_is_density": the sampler's law, as an expectation functional, equals the density-weighted sum over the list of
+   ALL placements (into each top-level clone, a new clone above every subset of top-level clones, the outlier set):
+   this is faithfulness (sampled probability = reported density), normalisation (take f = 1) and support in one
+   statement, for every number of top-level clones R and every test function f. *)
+From PV Require Import Model.Proposals Proofs.GibbsProofs Proofs.ProposalsProofs.
+
+Theorem C08_bootstrap_is_density : forall (op : Qc) (first : bool) (R : nat) (f : place -> Qc),
+  (first = true -> R = 0%nat) ->
+  E (boot_sample op first R) f = sumq (map (fun p => boot_dens op first R p * f p) (all_places R true)).
+Proof. exact boot_sample_is_density. Qed.
+Print Assumptions C08_bootstrap_is_density.
+
+Theorem C08_bootstrap_mass_one : forall (op : Qc) (first : bool) (R : nat),
+  (first = true -> R = 0%nat) -> mass (boot_sample op first R) = 1.
+Proof. exact boot_sample_mass. Qed.
+Print Assumptions C08_bootstrap_mass_one.
+
+Theorem C08_fully_adapted_is_density : forall (gam : place -> Qc) (R : nat) (on : bool) (f : place -> Qc),
+  total gam (all_places R on) <> 0 ->
+  E (full_sample gam R on) f = sumq (map (fun p => full_dens gam R on p * f p) (all_places R on)).
+Proof. exact full_sample_is_density. Qed.
+Print Assumptions C08_fully_adapted_is_density.
+
+Theorem C08_fully_adapted_mass_one : forall (gam : place -> Qc) (R : nat) (on : bool),
+  total gam (all_places R on) <> 0 -> mass (full_sample gam R on) = 1.
+Proof. exact full_sample_mass. Qed.
+Print Assumptions C08_fully_adapted_mass_one.
+
+Theorem C08_semi_adapted_is_density : forall (gam : place -> Qc) (R : nat) (on : bool) (f : place -> Qc),
+  (R = 0%nat -> total gam ((if on then [Outlier] else []) ++ [NewOver []]) <> 0) ->
+  (R <> 0%nat -> total gam (semi_exist R on) <> 0) ->
+  E (semi_sample gam R on) f = sumq (map (fun p => semi_dens gam R on p * f p) (all_places R on)).
+Proof. exact semi_sample_is_density. Qed.
+Print Assumptions C08_semi_adapted_is_density.
+
+Theorem C08_semi_adapted_mass_one : forall (gam : place -> Qc) (R : nat) (on : bool),
+  (R = 0%nat -> total gam ((if on then [Outlier] else []) ++ [NewOver []]) <> 0) ->
+  (R <> 0%nat -> total gam (semi_exist R on) <> 0) ->
+  mass (semi_sample gam R on) = 1.
+Proof. exact semi_sample_mass. Qed.
+Print Assumptions C08_semi_adapted_mass_one.
+
+(* the number of k-subsets is the binomial coefficient the densities divide by *)
+Theorem C08_subsets_count : forall (A : Type) (l : list A) (k : nat), length (subsets_k k l) = C (length l) k.
+Proof. intros A l k. apply length_subsets_k. Qed.
+Print Assumptions C08_subsets_count.
+
+(* along every path the incremental weights times the proposal probabilities multiply to target(T) / target(0) *)
+Theorem C08_weights_telescope : forall gs qs g0,
+  length gs = length qs -> g0 <> 0 -> Forall (fun g => g <> 0) gs -> Forall (fun q => q <> 0) qs ->
+  prodq (path_weights g0 gs qs) * prodq qs = lastq g0 gs / g0.
+Proof. exact weights_telescope. Qed.
+Print Assumptions C08_weights_telescope.
+
+(* pinned commit: on an outliers-only parent the reported densities sum to (1 + op) / 2, not 1 *)
+Example C08_bootstrap_outliers_only_refuted :
+  let op := Q2Qc (1 # 10) in
+  Qc_eq_bool (sumq (map (boot_dens_pinned op false 0) (all_places 0 true))) (Q2Qc (11 # 20)) = true
+  /\ Qc_eq_bool (sumq (map (boot_dens op false 0) (all_places 0 true))) 1 = true.
+Proof. split; vm_compute; reflexivity. Qed.
+Print Assumptions C08_bootstrap_outliers_only_refuted.
+
+(* non-vacuity: three top-level clones, 3 + 8 + 1 placements, unequal targets *)
+Example C08_nontrivial :
+  let gam := fun p => match p with Existing i => qn (S i) | NewOver s => qn (S (length s)) | Outlier => half end in
+  length (all_places 3 true) = 12%nat
+  /\ Qc_eq_bool (mass (semi_sample gam 3 true)) 1 = true
+  /\ Qc_eq_bool (mass (boot_sample (Q2Qc (1#10)) false 3)) 1 = true
+  /\ Qc_eq_bool (sumq (map (semi_dens gam 3 true) (all_places 3 true))) 1 = true.
+Proof. repeat split; vm_compute; reflexivity. Qed.
+Print Assumptions C08_nontrivial.
